@@ -379,23 +379,11 @@ class SemanticErrorChecker:
                 return False
         elif isinstance(input_parameter, list):
             # At this point it is known that the variable chain is valid, so dont check again
-            current_struct = self.structs[task_context.variables[input_parameter[0]]]
-            i = 1
-            while i < len(input_parameter) - 1:
-                element = current_struct.attributes[input_parameter[i]]
-                if isinstance(element, Array):
-                    i = i + 1
-                    current_struct = self.structs[element.type_of_elements]
-                else:
-                    current_struct = self.structs[element]
-                i = i + 1
-
-            index = len(input_parameter) - 1
-            if input_parameter[index].startswith("["):
-                given_type = current_struct.name
-            else:
-                given_type = current_struct.attributes[input_parameter[index]]
-            if given_type != defined_type:
+            given_type = helpers.get_type_of_variable_list(
+                input_parameter, task_context, self.structs
+            )
+            # str() because of possible Arrays as types
+            if str(given_type) != str(defined_type):
                 error_msg = (
                     "Type of TaskCall parameter "
                     f"'{input_parameter[len(input_parameter)-1]}' does not match with "
@@ -508,20 +496,31 @@ class SemanticErrorChecker:
                         self.error_handler.print_error(error_msg, context=context)
                         return False
                     if i < len(variable_list) - 1:
+                        attribute_type = predecessor.attributes[attribute]
                         # check if this attribute is an array (next element is [])
                         if not (
                             variable_list[i + 1].startswith("[")
                             and variable_list[i + 1].endswith("]")
                         ):
-                            if predecessor.attributes[attribute] not in self.structs:
+                            if not (
+                                isinstance(attribute_type, str) and attribute_type in self.structs
+                            ):
                                 error_msg = f"Attribute '{attribute}' is not a Struct"
                                 self.error_handler.print_error(error_msg, context=context)
                                 return False
-                            predecessor = self.structs[predecessor.attributes[attribute]]
+                            predecessor = self.structs[attribute_type]
                         else:
-                            predecessor = self.structs[
-                                predecessor.attributes[attribute].type_of_elements
-                            ]
+                            if not isinstance(attribute_type, Array):
+                                error_msg = f"Attribute '{attribute}' is not an Array"
+                                self.error_handler.print_error(error_msg, context=context)
+                                return False
+                            if i + 2 < len(variable_list):
+                                # the element is accessed further, so it has to be a Struct
+                                if attribute_type.type_of_elements not in self.structs:
+                                    error_msg = f"The elements of Array '{attribute}' are no Structs"
+                                    self.error_handler.print_error(error_msg, context=context)
+                                    return False
+                                predecessor = self.structs[attribute_type.type_of_elements]
         else:
             error_msg = f"Unknown variable '{variable}'."
             self.error_handler.print_error(error_msg, context=context)
